@@ -26,6 +26,7 @@ import (
 	"verif/harness/ribhist"
 	"verif/harness/ribx"
 	"verif/harness/sesshist"
+	"verif/harness/streams"
 	"verif/mc"
 	"verif/report"
 	"verif/rt"
@@ -1005,6 +1006,8 @@ func RunC11(rep *report.Report, tier string) {
 	for _, sc := range scenarios() {
 		names = append(names, sc.name)
 	}
+	// ... and the disconnect schedules of C10 (a session cut with a batch in flight), under the race detector here
+	names = append(names, "sched/cancel", "sched/unavailable")
 	base := os.Getenv("VERIF_RACE_LOG")
 	rep.Shards(names, 12, func(part string) []string {
 		lp := base + "-" + part
@@ -1015,6 +1018,13 @@ func RunC11(rep *report.Report, tier string) {
 
 // ChildC11 runs one scenario (shard process).
 func ChildC11(rep *report.Report, tier, part string) {
+	if strings.HasPrefix(part, "sched/") {
+		streams.ChildC10Sched(rep, tier, part)
+		for _, rr := range raceReports() {
+			rep.Violate("C11/data-race/"+rr.sig, rr.text, map[string]any{"scenario": part, "report": rr.text})
+		}
+		return
+	}
 	dl := ribhist.Budget(tier, 120*time.Second, 25*time.Minute)
 	bound := 2
 	if tier == "thorough" {
